@@ -398,6 +398,9 @@ pub fn replay_program(ctx: &Ctx, v: &Value) -> i32 {
 
 pub fn run(ctx: &Ctx) -> i32 {
     if let Some(v) = &ctx.replay {
+        if crate::checks::soup::is_soup_replay(v) {
+            return crate::checks::soup::replay(ctx, P, v);
+        }
         if v.get("case").and_then(|c| c.get("kind")).and_then(|k| k.as_str()) == Some("program") {
             return replay_program(ctx, v);
         }
@@ -498,5 +501,8 @@ pub fn run(ctx: &Ctx) -> i32 {
     let rule = "cases = (a) the complete Bcc d:8 truth table (16 conditions x 256 CCR x every even displacement) and the d:16 table with sampled even displacements, code placed so that both successors are mapped; (b) JMP @ERn/@aa:24/@@aa:8 with targets across RAM/DRAM, arbitrary register upper byte and vector top byte; (c) BSR d:8/d:16, JSR (3 forms), RTS single steps with frames in RAM/DRAM and SP upper byte arbitrary; (d) generated call-tree programs (BSR/JSR mixes, depth up to 8) run in lockstep with the reference and against a shadow call stack (RTS must resume right after the matching call with SP restored). Oracle = reference model full post-state. Non-trivial = taken branch, or any jump/call/return step, or a program with nesting depth >= 2 or SP upper byte != 0; distinct by (form, condition, displacement/register, CCR, code/target/frame region).";
     let mut extra = Map::new();
     extra.insert("masked_details".into(), json!(["top byte of the 4-byte call frame (property: low 24 bits)", "JSR @ER7 and frames overlapping the @@aa:8 vector are excluded (unspecified order)"]));
+    stats.merge(crate::checks::soup::phase(ctx, P, crate::checks::soup::Flavor::Flow, ctx.tier.pick(200_000, 4_000_000), 0x0551_0000, false));
+    let rule_soup = format!("{}{}", rule, crate::checks::soup::RULE);
+    let rule: &str = &rule_soup;
     finish(ctx, P, stats, rule, vec!["reference model transcribed from the H8/300H programming manual (DESIGN Appendix A.5)".into()], extra)
 }
